@@ -501,8 +501,11 @@ func (x *scanCtx) c03() {
 	}
 	if a.TaintPutOK > 0 {
 		x.check("c03-taint")
-		if a.U-a.TaintPutOK < gs.MinEff {
-			x.viol("C03", "c03-taint-below-min", "", "", fmt.Sprintf("%d untainted nodes in view, %d tainted by this scan, min_nodes %d", a.U, a.TaintPutOK, gs.MinEff), putsOf(a, "taint")...)
+		// "of the untainted nodes it sees, at least min_nodes remain untainted afterwards": a node of that view
+		// which the scan's own read showed to be tainted already does not remain untainted either, so it counts
+		// here (whether it also counts towards the band's taint quota, C06, is left to the code)
+		if a.U-a.TaintOK < gs.MinEff {
+			x.viol("C03", "c03-taint-below-min", "", "", fmt.Sprintf("%d untainted nodes in view, %d tainted by this scan, min_nodes %d", a.U, a.TaintOK, gs.MinEff), putsOf(a, "taint")...)
 		}
 	}
 	if a.Kind == kBelowMin {
@@ -1312,6 +1315,9 @@ func (x *scanCtx) c10() {
 	if k == nil || !k.Valid || k.Desired <= k.Min || k.Desired-int64(len(eligible)) < k.Min {
 		return
 	}
+	if gs.MembersAmbiguous {
+		return
+	}
 	for _, n := range eligible {
 		if _, member := k.Instances[instanceOf(n.Spec.ProviderID)]; !member {
 			return // the documented not-in-group stop takes precedence
@@ -1469,14 +1475,14 @@ func (x *scanCtx) c12Targets() {
 		case OpTerminateASG:
 			if _, ok := a.ByInst[c.Target]; !ok {
 				bad = "instance backs no node of this group's view"
-			} else if k := gs.KnownAtList; k != nil && k.Valid && !gs.KnownAmbiguous {
+			} else if k := gs.KnownAtList; k != nil && k.Valid && !gs.KnownAmbiguous && !gs.MembersAmbiguous {
 				if _, member := k.Instances[c.Target]; !member {
 					// only a cross-group hit is judged here: the instance is a known member of ANOTHER group's ASG
 					for _, og := range x.s.cfg.Groups {
 						if og.ASG == g.ASG {
 							continue
 						}
-						if ok2 := x.s.w.known[og.ASG]; ok2 != nil && ok2.Valid && !ok2.Ambiguous {
+						if ok2 := x.s.w.known[og.ASG]; ok2 != nil && ok2.Valid && !ok2.Ambiguous && !ok2.AmbiguousMembers {
 							if _, theirs := ok2.Instances[c.Target]; theirs {
 								bad = "instance is a member of another group's cloud group " + og.ASG + ", not of " + g.ASG
 							}
@@ -1966,7 +1972,7 @@ func (x *scanCtx) c19Fatal() {
 	if x.rec.Outcome.Crash || x.rec.Outcome.Panic != "" || x.rec.Outcome.Exit {
 		return
 	}
-	if gs.KnownAmbiguous || preFaulted(x.rec) {
+	if gs.KnownAmbiguous || gs.MembersAmbiguous || preFaulted(x.rec) {
 		return
 	}
 	for _, r := range gs.Reqs {
@@ -2157,7 +2163,7 @@ func (s *Supervisor) checkOutcome(rec *ScanRecord) {
 				}
 				if n, ok := gs.A.Node[o.NotInGroupNode]; ok {
 					k := gs.KnownAtList
-					if k == nil || !k.Valid || gs.KnownAmbiguous {
+					if k == nil || !k.Valid || gs.KnownAmbiguous || gs.MembersAmbiguous {
 						legit = true
 					} else if _, member := k.Instances[instanceOf(n.Spec.ProviderID)]; !member {
 						legit = true
